@@ -208,12 +208,12 @@ func (g *c15g) setOp(obj int) plan.Op {
 	case x < 8:
 		return plan.Op{Kind: plan.OpSet, Obj: obj, Name: "inx", Val: vp(g.value(0))}
 	case x < 9:
-		return plan.Op{Kind: plan.OpSet, Obj: obj, Name: []string{"cst", "gx", "late", "acc", "acc2", "blk", "i"}[g.r.Intn(7)], Val: vp(g.value(0))}
+		return plan.Op{Kind: plan.OpSet, Obj: obj, Name: []string{"cst", "gx", "late", "acc", "acc2", "blk", "i", "format"}[g.r.Intn(8)], Val: vp(g.value(0))}
 	}
 	return plan.Op{Kind: plan.OpSet, Obj: obj, Name: "nosuch", Val: vp(plan.Int(g.u()))}
 }
 
-var c15Names = []string{"ini", "ins", "inx", "cst", "gx", "gi", "gs", "arr", "n", "m", "acc", "acc2", "blk", "i", "tmp", "late", "nf", "extra", "nosuch", "tick"}
+var c15Names = []string{"format", "ini", "ins", "inx", "cst", "gx", "gi", "gs", "arr", "n", "m", "acc", "acc2", "blk", "i", "tmp", "late", "nf", "extra", "nosuch", "tick"}
 
 func (g *c15g) readOp(obj int) plan.Op {
 	switch g.r.Intn(5) {
@@ -270,6 +270,10 @@ func genC15(r *plan.Rng) *plan.Plan {
 		}
 		if r.Chance(1, 3) {
 			ops = append(ops, plan.Op{Kind: plan.OpAdd, Script: si, Name: "extra", Val: vp(g.value(0))})
+		}
+		if r.Chance(1, 4) {
+			// a host variable that happens to be named like a builtin function
+			ops = append(ops, plan.Op{Kind: plan.OpAdd, Script: si, Name: "format", Val: vp(g.value(0))})
 		}
 	}
 	live := []int{} // slots holding an object
